@@ -238,11 +238,26 @@ def account(ctx, rule, cls, extra_subst=None):
         # (through the same arm) for either
         cells = cells + [dict(c, outcome="outlier", adapted=True) for c in cells if c["outcome"] == "existing"]
     # B2 (sample side): the threshold chain partitions [0, 1) in every state
-    for st, ps in by_state.items():
+    # a path that does not test some state variable (the uniform draw is compared first, say) applies to both of its
+    # values: the outcome probabilities must sum to one under every complete assignment of the state variables
+    import itertools
+
+    kinds = sorted({k for c in cells for k in c["state"]})
+    seen_states = set()
+    for values in itertools.product((True, False), repeat=len(kinds)):
+        full = dict(zip(kinds, values))
+        members = [c for c in cells if not c.get("adapted") and all(full[k] == v for k, v in c["state"].items())]
+        if not members:
+            continue
+        # report each distinct situation once: the part of the assignment the member paths actually test
+        tested = tuple(sorted((k, full[k]) for k in kinds if any(k in c["state"] for c in members)))
+        if tested in seen_states:
+            continue
+        seen_states.add(tested)
         tot = Poly.const(0)
-        for p in ps:
-            tot = tot + p
-        ctx.check(tot == Poly.const(1), rule + "n", "%s.sample: outcome probabilities sum to one in state %s" % (cls, dict(st)), sample.where(), "the threshold chain on the uniform draw leaves probability %s unaccounted in state %s" % (show(Poly.const(1) - tot), dict(st)), construct=sample.qualname, stmt="threshold chain %s" % (dict(st),))
+        for c in members:
+            tot = tot + c["p"]
+        ctx.check(tot == Poly.const(1), rule + "n", "%s.sample: outcome probabilities sum to one in state %s" % (cls, dict(tested)), sample.where(), "the threshold chain on the uniform draw leaves probability %s unaccounted in state %s" % (show(Poly.const(1) - tot), dict(tested)), construct=sample.qualname, stmt="threshold chain %s" % (dict(tested),))
     # ---- paths of log_p()
     lpaths = []
     ksub = {}
